@@ -23,7 +23,7 @@ EXPLANATION = ('Proved: util.lower is ASCII lower-casing (what keyword/name fold
                ':is/:not/:has/:where, An+B with "of S", :lang, :dir, :-soup-contains, namespaces.')
 LEVEL_TEXT = EXPLANATION
 TECHNIQUE = 'bounded evaluation of the equivalence contract compile(respell(p)) == compile(p); VC-proved character-level lemma'
-MUSTFAIL = False
+MUSTFAIL_PER_FN = {"quick": 2, "thorough": None}
 
 FUNCTIONS = FUNCTIONS + ['soupsieve.css_parser.css_unescape.replace@esc', 'soupsieve.css_parser.css_unescape.replace@stresc', 'soupsieve.css_parser.css_unescape']
 
